@@ -55,6 +55,11 @@ var c19Fns = []c19Fn{
 	{"variadic", func(xs ...int) int { return len(xs) }, false, nil},
 	{"errNil", func(x int) (int, error) { return x + 1, nil }, false, nil},
 	{"errSet", func(x int) (int, error) { return 0, errors.New("go-error") }, false, nil},
+	// every position a trailing error can have in a result list
+	{"errOnlySet", func(x int) error { return errors.New("go-error") }, false, nil},
+	{"errOnlyNil", func(x int) error { return nil }, false, nil},
+	{"threeErrSet", func(x int) (int, string, error) { return x, "s", errors.New("go-error") }, false, nil},
+	{"threeErrNil", func(x int) (int, string, error) { return x, "s", nil }, false, nil},
 	{"twoResults", func(x int) (int, string) { return x, "s" }, false, nil},
 	{"noResult", func(x int) {}, false, nil},
 	{"noArgs", func() int { return 7 }, false, nil},
@@ -101,6 +106,24 @@ func c19CheckResult(c *Ctx, fn string, input string, ret interface{}, err error)
 			return fmt.Sprintf("%T", v)
 		}
 		return ""
+	}
+	var hasErr func(v interface{}) bool
+	hasErr = func(v interface{}) bool {
+		if _, ok := v.(error); ok {
+			return true
+		}
+		if l, ok := v.([]interface{}); ok {
+			for _, e := range l {
+				if hasErr(e) {
+					return true
+				}
+			}
+		}
+		return false
+	}
+	if hasErr(ret) {
+		c.Viol("go-error-delivered-as-value", fmt.Sprintf("%s: the result %v contains a Go error object; a trailing Go error must arrive as the call's error", input, ret), input)
+		return false
 	}
 	if b := bad(ret); b != "" {
 		c.Viol("go-number-not-converted", fmt.Sprintf("%s: result contains a Go %s instead of an ECAL number", input, b), input)
@@ -200,10 +223,26 @@ func init() {
 						}
 					}
 					switch fn.name {
-					case "errSet":
+					case "errSet", "errOnlySet", "threeErrSet":
 						if len(idx) == 1 {
 							if _, ok := args[0].(float64); ok && (err == nil || !strings.Contains(err.Error(), "go-error")) {
 								c.Viol("go-error-not-delivered", fmt.Sprintf("%s: the function's trailing error did not arrive (got %v / %v)", input, ret, err), input)
+							}
+						}
+					case "errOnlyNil", "threeErrNil":
+						if len(idx) == 1 {
+							if x, ok := args[0].(float64); ok && x == math.Trunc(x) && math.Abs(x) < 1e15 {
+								want := "[]"
+								if fn.name == "threeErrNil" {
+									want = fmt.Sprintf("[%v s]", x)
+								}
+								got := fmt.Sprint(ret)
+								if ret == nil {
+									got = "[]"
+								}
+								if err != nil || got != want {
+									c.Viol("result-wrong:"+fn.name, fmt.Sprintf("%s: got %v / %v, expected %s and no error", input, ret, err, want), input)
+								}
 							}
 						}
 					case "errNil":
